@@ -71,6 +71,16 @@ CHECKS = {
           "Requests over generated corpora (query, filter, sort plan, limit, execution strategy, optional aggregations, optional rescore, first or second page) are evaluated with (explain, profile) off and with the three other combinations: ids, order, scores, totals, cursors and aggregations must be equal, every hit must carry an explanation whose final_score equals its score, and profile must be present when asked. Three listed findings (one root cause: explain runs a separate execution path) are matched by predicate and excluded.",
           "Trusted: comparison only; score tolerance 1e-5 relative.",
           "DESIGN.md §5 C20"),
+  "C22": ("exploration",
+          "property-based testing against a reference term dictionary (document frequencies computed from the raw documents) plus layout/size/repetition metamorphic relations",
+          "Corpora of 3-40 documents without deletions (text field under 5 analyzers, keyword field, vocabulary sharing prefixes and a dense family for the scan-cap stratum) are committed under 2-4 segment layouts and asked completion requests (single-word prefixes of length 0-5, size 1..10, optional fuzzy options): every option must be an indexed term matching the analyzed prefix (or within the edit distance and sharing prefix_length characters), unique, sorted by (score desc, text asc), at most size; doc_freq must equal the number of indexed documents containing the term; below the scan cap the options must be the head of the covering-size list, which must hold exactly the eligible terms; answers must be identical across layouts, repeated calls and fresh readers.",
+          "Trusted: the crate's analyzers for tokenisation (index terms and the analyzed prefix), harness Levenshtein. At or above the scan cap only soundness (term validity, ordering, doc_freq upper bound) is judged.",
+          "DESIGN.md §5 C22"),
+  "C30": ("exploration",
+          "metamorphic property-based testing (composite page walk vs unpaged request), after_key handed back as value and through JSON text",
+          "Corpora of 3-40 documents (keyword and f64/i64 fast fields, multi-valued, missing, fractional/negative/extreme values) over 1-3 segments with deletions and optional filter; composite aggregations of 1-3 sources (terms, histogram with fractional intervals) with optional sub-aggregation and page size 1..5. The concatenated pages must equal the unpaged buckets (keys, order, counts, sub-aggregations), every page but the last must be full with after_key == its last key, and the last page must carry no after_key; half of the cases send after_key back through JSON text exactly as an HTTP/CLI/FFI client does.",
+          "Trusted: the unpaged response as reference (C12 compares composite responses across segment layouts). The harness must not enable serde_json features that searchlite does not (feature unification would mask parse differences).",
+          "DESIGN.md §5 C30"),
 }
 
 NOT_APPLICABLE = {
